@@ -320,11 +320,13 @@ def Meta.asVDR (m : Meta) : VMeta :=
 
 /-- `loadConflictedDocuments` on a new store object: for every key of the conflicted shelf, the latest version of
     that DID (if any), cached under the ID of that document -/
+def loadStep (acc : List (String × (Doc × Meta))) (p : String × DidState) : List (String × (Doc × Meta)) :=
+  match p.2.chain.getLast? with
+  | some l => alPut acc l.1.id l
+  | none => acc
+
 def loadConflicted (dids : List (String × DidState)) : List (String × (Doc × Meta)) :=
-  (dids.filter (fun p => p.2.conflicted)).foldl
-    (fun acc p => match p.2.chain.getLast? with
-      | some l => alPut acc l.1.id l
-      | none => acc) []
+  (dids.filter (fun p => p.2.conflicted)).foldl loadStep []
 
 /-- restart: the durable shelves survive, the cache is rebuilt -/
 def reload (s : Store) : Store := { s with cache := loadConflicted s.dids }
